@@ -57,7 +57,9 @@ CONSTANTS Cap,       \* MaxIterations
           MaxRetries,   \* how often the caller calls SolveStep again for a period that raised (per run)
           CapBoost,     \* by how much the caller may raise MaxIterations before the retry
           SweepAlphabet, DecoAlphabet, BigChoices,   \* the instance: outcomes / start tolerance classes explored
-          LaggedRecordedAtSetup   \* FALSE = the code: a period is recorded all-or-nothing, at its end
+          LaggedRecordedAtSetup,  \* FALSE = the code: a period is recorded all-or-nothing, at its end
+          Hyp_NoCap               \* FALSE = the code.  TRUE (hypothetical): the cap test is dropped - the loop goes on
+                                  \* for as long as the error stays above the tolerance (liveness counterexample)
 
 Classes == {"sim", "lag", "deco", "exo"}
 NonExo == {"sim", "lag", "deco"}
@@ -113,12 +115,12 @@ RetryOp(st, newcap, newbig) ==
 
 SweepEnabled(st, cap, o) ==
     /\ st.status = "iterating"
-    /\ st.sweep <= cap                 \* otherwise the cap test has raised
+    /\ (Hyp_NoCap \/ st.sweep <= cap) \* otherwise the cap test has raised
     /\ LoopContinuesIn(st)
     /\ (st.iter # "finite" => o \in {"overflow", "overflow_nan", "other"})
 SweepOp(st, o) ==
     IF o = "other" THEN [st EXCEPT !.status = "raised_other"]
-    ELSE [st EXCEPT !.sweep = @ + 1,
+    ELSE [st EXCEPT !.sweep = IF Hyp_NoCap /\ @ > st.cap THEN @ ELSE @ + 1,    \* (the hypothetical counter saturates)
                     !.evalErr = (o \in {"everr_le", "everr_gt"}),
                     !.iter = CASE o = "overflow" -> "inf" [] o = "overflow_nan" -> "nan" [] OTHER -> "finite",
                     !.errc = CASE o \in {"converge", "everr_le"} -> "le_tol"
@@ -131,12 +133,12 @@ JumpEnabled(st, cap, m) == st.status = "iterating" /\ st.iter = "finite" /\ (m >
 JumpOp(st, m) == IF m = 0 THEN st
                  ELSE [st EXCEPT !.sweep = @ + m, !.evalErr = FALSE, !.errc = "gt_tol"]
 
-CapHit(st, cap) == st.status = "iterating" /\ st.sweep > cap
+CapHit(st, cap) == ~Hyp_NoCap /\ st.status = "iterating" /\ st.sweep > cap
 RaiseConvergenceEnabled(st, cap) == CapHit(st, cap) /\ ~st.evalErr
 RaiseValueEnabled(st, cap) == (CapHit(st, cap) /\ st.evalErr) \/ (st.status = "exited" /\ st.evalErr)
 RaiseOp(st, kind) == [st EXCEPT !.status = kind]
 
-ExitLoopEnabled(st, cap) == st.status = "iterating" /\ st.sweep <= cap /\ ~LoopContinuesIn(st)
+ExitLoopEnabled(st, cap) == st.status = "iterating" /\ (Hyp_NoCap \/ st.sweep <= cap) /\ ~LoopContinuesIn(st)
 ExitLoopOp(st) == [st EXCEPT !.status = "exited"]
 
 Bump(len, S) == [c \in Classes |-> IF c \in S THEN len[c] + 1 ELSE len[c]]
@@ -203,7 +205,7 @@ Retry(newcap, newbig) ==
 Sweep(o) == /\ SweepEnabled(St, cap, o)
             /\ Set(SweepOp(St, o))
             /\ hist' = [hist EXCEPT ![Cur] =
-                          [@ EXCEPT !.n = IF o = "other" THEN @ ELSE @ + 1,
+                          [@ EXCEPT !.n = IF o = "other" \/ (Hyp_NoCap /\ @ > cap) THEN @ ELSE @ + 1,
                                     \* an evaluation error that a later sweep no longer has = transient
                                     !.tr = @ \/ (evalErr /\ o \notin {"everr_le", "everr_gt", "other"}),
                                     !.last = o,
@@ -236,6 +238,13 @@ Next == \/ BeginStep
         \/ Finish
 
 Spec == Init /\ [][Next]_vars
+
+(* Liveness ("in bounded work", C11): if the solver keeps taking its own steps, every run ends - all periods recorded, *)
+(* or an error raised that no caller retries any more - and stays there.  The cap is what makes this true: with       *)
+(* Hyp_NoCap a system whose error never meets the tolerance sweeps for ever (MC_Solver_live_nocap.cfg).               *)
+FairSpec == Spec /\ WF_vars(Next)
+RunOver == status = "done" \/ (status \in Raised /\ retries = MaxRetries)
+C11_Terminates == <>[]RunOver
 
 (* ---------------------------------------------------------------------------------- *)
 TypeOK == /\ big \in BOOLEAN /\ SweepAlphabet \subseteq SweepOutcomes /\ DecoAlphabet \subseteq DecoOutcomes
